@@ -635,10 +635,11 @@ def c18_pop(cases, bound, long=False):
 
 def c18_mem(descs, L):
     exe = build_harness("release")
-    inp = "".join("m%d mem %s ; %d\n" % (i, d_sexpr(d), L) for i, d in enumerate(descs))
+    jobs = [(d, kind) for d in descs for kind in ("walk", "const", "steps")]
+    inp = "".join("m%d mem %s ; %d %s\n" % (i, d_sexpr(d), L, kind) for i, (d, kind) in enumerate(jobs))
     r = subprocess.run([exe, "run", "48", "32"], input=inp, stdout=subprocess.PIPE, text=True)
     out = []
-    for d, line in zip(descs, r.stdout.strip().split("\n")):
+    for (d, kind), line in zip(jobs, r.stdout.strip().split("\n")):
         toks = line.split()[1:]
         if toks == ["E"] or len(toks) != 3:
             out.append(viol("c18-mem-error", "%s: could not measure (%s)" % (d_sexpr(d), line), [], desc=d_sexpr(d)))
@@ -646,7 +647,7 @@ def c18_mem(descs, L):
         a, b, c_ = (int(x) for x in toks)
         if c_ > b or b > a and c_ > a:
             if c_ > a:
-                out.append(viol("c18-heap-" + d[0].lower(), "%s: live heap bytes owned grow with the stream: %d at %d updates, %d at %d, %d at %d" % (d_sexpr(d), a, L, b, 2 * L, c_, 4 * L), [], desc=d_sexpr(d), bytes=[a, b, c_]))
+                out.append(viol("c18-heap-" + d[0].lower(), "%s: live heap bytes owned grow with the stream (%s stream): %d at %d updates, %d at %d, %d at %d" % (d_sexpr(d), kind, a, L, b, 2 * L, c_, 4 * L), [], desc=d_sexpr(d), bytes=[a, b, c_], stream=kind))
     return out
 
 # ---------------------------------------------------------------------------------- C09
